@@ -221,6 +221,13 @@ func deepCopy(src *lazyNode, options *ApplyOptions) (*lazyNode, int, error) {
 	if err != nil {
 		return nil, 0, err
 	}
+	// The copy is kept as text and parsed again when a later operation
+	// descends into it. Values assembled by earlier operations can be
+	// nested deeper than the decoder accepts, so make sure of it here
+	// rather than hand it text it cannot read.
+	if !json.Valid(a) {
+		return nil, 0, fmt.Errorf("copied value cannot be parsed again (nested too deeply?): %w", ErrInvalid)
+	}
 	sz := len(a)
 	return newLazyNode(newRawMessage(a)), sz, nil
 }
